@@ -5,11 +5,13 @@
    The per-type field sequences (Gen/Layouts.v) are regenerated from zmsg.go on
    every run; Spec/RfcLayouts.v is the frozen RFC table.  The field codecs that
    interpret a layout (Model/Rdata.v) are tied to msg_helpers.go by the
-   correspondence check for every type on every run; the generic round-trip
-   theorem over all field kinds is work in progress (partial) — names, the
-   header word and the RCODE split are proved below. *)
+   correspondence check for every type on every run.  Names, the header word and
+   the RCODE split come first; the generic value -> wire -> value theorems over
+   the translated layouts (per field kind, per field sequence, per record) are
+   at the end, with the census of the record types they cover. *)
 From Dns Require Import Model.Msg Spec.RfcLayouts Proofs.LayoutProofs Proofs.HeaderProofs
-  Proofs.NameRoundtripProofs Gen.Layouts Gen.Registry.
+  Proofs.NameRoundtripProofs Proofs.RoundtripFieldProofs Proofs.RoundtripRRProofs Gen.Layouts Gen.Registry.
+Open Scope list_scope.
 Open Scope N_scope.
 
 (* every type's pack() walks exactly the fields the RFCs prescribe, in order,
@@ -66,3 +68,118 @@ Theorem names_roundtrip :
     pack_name_plain (show_name ls) cap = Ok (wire_name ls) /\
     unpack_name (wire_name ls ++ post) 0 = Ok (show_name ls, wire_len ls).
 Proof. intros ls cap post Hv Hc. split; [apply pack_show_name; assumption|apply unpack_wire_name, Hv]. Qed.
+
+(* ================================================================== *)
+(* value -> wire -> value, generically over the translated layouts
+   (Proofs/RoundtripFieldProofs.v, Proofs/RoundtripRRProofs.v).
+
+   [canon v k x]  x is a canonical value of field kind k inside the RDATA v:
+                  integers below 2^(8w); names that are the presentation form
+                  of a valid wire name; character-strings that print at most 255
+                  octets; non-empty lists of such; 4 / 16 octet addresses; octet
+                  strings with only the backslash escaped; opaque octets, and,
+                  for a sized field, as many octets as its size field says;
+                  lists of such names; type bitmaps that are strictly
+                  increasing lists of 16-bit type codes.
+                  Kinds outside [simple_kind] have no canonical values, which
+                  makes the theorems silent (not wrong) about them.
+   [st0 out]      the packing state: octets written so far, no compression map.
+   [zero_of k]    the Go zero value of a field of kind k.
+   [same_field]   equal, or absent after unpacking while the packed value was
+                  the zero value (the generated unpack() returns early when the
+                  RDATA is exhausted). *)
+
+(* one field: whatever pack_field writes for a canonical value, unpack_field of
+   the agreeing kind reads back as that value, consuming exactly those octets;
+   a to-the-end kind must be followed by nothing, a sized kind needs its size
+   field among the fields decoded so far *)
+Theorem field_value_roundtrip_partial :
+  forall (v : rdata) (f : string) (k k' : fkind) (x : fval) (cap : N) (out : bytes) (st' : pn_state),
+    kind_agree k k' = true -> vget v f = Some x -> canon v k x ->
+    pack_field v f k cap (st0 out) = Ok st' ->
+    exists b : bytes,
+      st' = st0 (out ++ b) /\
+      (b = [] -> x = zero_of k) /\
+      forall (pre post : bytes) (got : rdata),
+        (to_end k = true -> post = []) ->
+        (forall s, sized_by k = Some s -> vget_n got s = vget_n v s) ->
+        unpack_field got k' (pre ++ b ++ post) (lenN pre) = Ok ([x], lenN pre + lenN b).
+Proof. exact field_roundtrip. Qed.
+Print Assumptions field_value_roundtrip_partial.
+
+(* a field sequence: pack() of any layout that meets [layout_ok] (covered kinds,
+   distinct field names, sized fields sized by an earlier field, only the last
+   field of to-the-end extent) followed by the agreeing unpack() on the RDATA
+   octets gives every field back *)
+Theorem field_sequence_roundtrip_partial :
+  forall (v : rdata) (cap : N) (ps : list pfield) (us : list ufield) (pre out : bytes) (st' : pn_state),
+    sides_agree ps us = true -> layout_ok [] ps = true -> fields_canon v ps ->
+    pack_fields v ps cap (st0 out) = Ok st' ->
+    exists (b : bytes) (got' : rdata),
+      st' = st0 (out ++ b) /\
+      unpack_fields us [] (pre ++ b) (lenN pre) = Ok (got', lenN pre + lenN b) /\
+      (b = [] -> Forall (fun fk : pfield => vget v (fst fk) = Some (zero_of (snd fk))) ps) /\
+      Forall (fun fk : pfield => same_field (snd fk) (vget got' (fst fk)) (vget v (fst fk))) ps.
+Proof. exact fields_roundtrip_top. Qed.
+Print Assumptions field_sequence_roundtrip_partial.
+
+(* a record: packRR writes the owner name, TYPE, CLASS, TTL, RDLENGTH and the
+   RDATA ([rr_wire]), and UnpackRR at that offset of any message holding these
+   octets returns the record: same header fields, RDLENGTH = the RDATA length,
+   and every RDATA field the same.  The buffer must not be full already
+   (lenN out < cap): packRR at off = len(msg) writes no header at all. *)
+Theorem record_roundtrip_partial :
+  forall (r : rr) (L : tlayout) (ls : list label) (cap : N) (out : bytes) (st' : pn_state) (post : bytes),
+    find_layout layouts (rr_kind r) = Some L -> layout_ok [] (tl_pack L) = true ->
+    rr_ok r ls -> fields_canon (rr_data r) (tl_pack L) ->
+    lenN out < cap ->
+    pack_rr r cap false (st0 out) = Ok st' ->
+    exists (rd : bytes) (r' : rr),
+      st' = st0 (out ++ rr_wire ls r rd) /\
+      unpack_rr (out ++ rr_wire ls r rd ++ post) (lenN out) = Ok (r', lenN out + lenN (rr_wire ls r rd)) /\
+      rr_rdlength r' = lenN rd /\ rr_same L r' r.
+Proof. exact rr_roundtrip. Qed.
+Print Assumptions record_roundtrip_partial.
+
+(* coverage of the three theorems above on the layouts translated on this run *)
+Theorem record_roundtrip_covers :
+  map tl_name (filter layout_supported layouts) =
+  ["A"; "AAAA"; "AFSDB"; "ANY"; "AVC"; "CAA"; "CDNSKEY"; "CDS"; "CERT"; "CNAME"; "CSYNC"; "DHCID";
+   "DLV"; "DNAME"; "DNSKEY"; "DS"; "EID"; "EUI48"; "EUI64"; "GID"; "GPOS"; "HINFO"; "HIP"; "ISDN";
+   "KEY"; "KX"; "L32"; "L64"; "LOC"; "LP"; "MB"; "MD"; "MF"; "MG"; "MINFO"; "MR"; "MX"; "NAPTR";
+   "NID"; "NIMLOC"; "NINFO"; "NS"; "NSAPPTR"; "NSEC"; "NSEC3"; "NSEC3PARAM"; "NULL"; "NXNAME";
+   "NXT"; "OPENPGPKEY"; "PTR"; "PX"; "RESINFO"; "RFC3597"; "RKEY"; "RP"; "RRSIG"; "RT"; "SIG";
+   "SMIMEA"; "SOA"; "SPF"; "SRV"; "SSHFP"; "TA"; "TALINK"; "TKEY"; "TLSA"; "TSIG"; "TXT"; "UID";
+   "UINFO"; "URI"; "X25"; "ZONEMD"]%string.
+Proof. exact supported_census. Qed.
+Print Assumptions record_roundtrip_covers.
+
+Theorem record_roundtrip_does_not_cover :
+  map tl_name (filter (fun L => negb (layout_supported L)) layouts) =
+  ["AMTRELAY"; "APL"; "HTTPS"; "IPSECKEY"; "OPT"; "SVCB"]%string.
+Proof. exact unsupported_census. Qed.
+Print Assumptions record_roundtrip_does_not_cover.
+
+(* non-vacuity: the hypotheses of the record theorem hold of a concrete MX and
+   a concrete TXT record, with the octets and the unpacked record computed *)
+Example record_roundtrip_mx :
+  exists L st',
+    find_layout layouts (rr_kind ex_mx) = Some L /\ layout_ok [] (tl_pack L) = true /\
+    rr_ok ex_mx ex_owner /\ fields_canon (rr_data ex_mx) (tl_pack L) /\
+    pack_rr ex_mx 100 false (st0 [7; 7; 7]) = Ok st' /\
+    pn_out st' = [7; 7; 7] ++ rr_wire ex_owner ex_mx [0; 10; 2; 109; 120; 2; 92; 46; 0] /\
+    unpack_rr (pn_out st' ++ [9; 9]) 3 =
+      Ok ({| rr_name := rr_name ex_mx; rr_type := 15; rr_class := 1; rr_ttl := 3600; rr_rdlength := 9;
+             rr_kind := "MX"; rr_data := rr_data ex_mx |}, 30).
+Proof. exact mx_hypotheses_hold. Qed.
+
+Example record_roundtrip_txt :
+  exists L st',
+    find_layout layouts (rr_kind ex_txt) = Some L /\ layout_ok [] (tl_pack L) = true /\
+    rr_ok ex_txt ex_owner /\ fields_canon (rr_data ex_txt) (tl_pack L) /\
+    pack_rr ex_txt 100 false (st0 []) = Ok st' /\
+    pn_out st' = rr_wire ex_owner ex_txt [4; 104; 105; 34; 0; 0; 2; 255; 92] /\
+    unpack_rr (pn_out st') 0 =
+      Ok ({| rr_name := rr_name ex_txt; rr_type := 16; rr_class := 1; rr_ttl := 4294967295; rr_rdlength := 9;
+             rr_kind := "TXT"; rr_data := rr_data ex_txt |}, 27).
+Proof. exact txt_hypotheses_hold. Qed.
